@@ -1,9 +1,13 @@
 """C08 — the synchronous pool is thread-safe."""
 from __future__ import annotations
 
+import copy
+
 from .. import oracles
+from ..runner import Family, Unit
+from ..scenario import run_scenario
 from . import register
-from .common import PoolMixFamily
+from .common import PoolMixFamily, StateSampler, gen_poolmix
 
 
 def in_use_closed_by_other(res):
@@ -152,6 +156,69 @@ FAMS = [
                    "h2_mcs": [100, 250], "proxies": ["none", "none", "socks"]},
                   [Limit08, Waiter08], [thread_oracle]),
 ]
+
+class DelaySweepFamily(Family):
+    """Systematic single-delay exploration.  A seeded base scenario (small pool, 3-4
+    threads, mostly one origin) is run once under the seeded operation-level schedule
+    while the source lines each thread executes are recorded; then, for every thread and
+    every distinct source line of httpcore/_sync it executes without holding a lock
+    (first and last occurrence), the run is repeated with that thread parked at that
+    line until no other thread can make progress any more.  Every two-line window of
+    unlocked code is thereby stretched to its maximum, deterministically."""
+
+    chunk = 1
+    SLICES = 4
+    OPTS = {"exec": "threads", "protos": ["h1"], "min_callers": 3, "max_callers": 4,
+            "max_ops": 2, "p_pool_timeout": 0.0, "single_origin": True,
+            "max_connections": [1, 1, 1, 2], "max_keepalive": [None, None, 0, 1],
+            "expiries": [None, None, 5.0], "proxies": ["none"],
+            "policies": [{"mode": "delay"}],
+            "resp_opts": {"p_conn_close": 0.1, "big": False}, "consume_opts": {"p_all": 0.8}}
+
+    def __init__(self, name, nq, nt):
+        self.prop = "C08"
+        self.name = name
+        self.n_quick, self.n_thorough = nq, nt
+
+    def units(self, tier):
+        return (self.n_quick if tier == "quick" else self.n_thorough) * self.SLICES
+
+    def run_scenario(self, scn):
+        res = run_scenario(scn, [Limit08(), Waiter08(), StateSampler()])
+        thread_oracle(res)
+        res.violations = list(res.world.violations)
+        return res
+
+    def run_unit(self, seed, index, tier):
+        from ..core import sub_seed
+
+        u = Unit()
+        bi, sl = divmod(index, self.SLICES)
+        bseed = sub_seed(getattr(self, "check_seed", 0), self.name, "base", bi)
+        base = gen_poolmix(bseed, "quick", self.OPTS)
+        base["net"]["seg"] = "whole" if base["net"]["seg"] in ("byte", "evil") else base["net"]["seg"]
+        base["policy"] = {"mode": "delay", "op_p": 0.5}
+        dry = self.run_scenario(dict(base, policy={"mode": "delay", "op_p": 0.5, "record": True}))
+        if sl == 0:
+            u.add_result(dry, base, "C08", nontrivial=True, keep_sample=(bi % 20 == 0))
+        rec = dry.info.get("line_record") or []
+        first, last = {}, {}
+        for name, k, fn, ln, nlocks in rec:
+            if nlocks or not name.startswith("c"):
+                continue
+            first.setdefault((name, fn, ln), k)
+            last[(name, fn, ln)] = k
+        points = sorted({(n, k) for (n, _, _), k in first.items()}
+                        | {(n, k) for (n, _, _), k in last.items()})
+        for name, k in points[sl::self.SLICES]:
+            s = copy.deepcopy(base)
+            s["policy"] = {"mode": "delay", "op_p": 0.5, "thread": name, "step": k}
+            res = self.run_scenario(s)
+            u.add_result(res, s, "C08", nontrivial=True)
+        return u
+
+
+FAMS.append(DelaySweepFamily("threads-delay-sweep", 12, 400))
 
 register("C08", {
     "level": "exploration",
